@@ -9,6 +9,7 @@ import (
 	"io"
 	"os"
 	"path/filepath"
+	"sort"
 	"strconv"
 	"strings"
 
@@ -31,6 +32,9 @@ type Document struct {
 	parts map[string][]byte
 	// 图片ID计数器，确保每个图片都有唯一的ID
 	nextImageID int
+	// stylesGenerated 表示 parts 中的 word/styles.xml 是由本文档的样式管理器生成的
+	// （而不是从已有文档/模板中读取的），因此每次保存时都可以安全地重新生成
+	stylesGenerated bool
 }
 
 // Body 表示文档主体
@@ -2984,7 +2988,9 @@ func (d *Document) serializeStyles() error {
 
 	// 如果在克隆文档时已经保留了完整的 styles.xml（含 docDefaults 等信息），
 	// 这里直接跳过重新生成，避免丢失模板原有的默认段落/字符设置。
-	if existing, ok := d.parts["word/styles.xml"]; ok && len(existing) > 0 {
+	// 只有当 styles.xml 不是由本文档自己生成时才保留原样；自己生成的部件在每次保存时
+	// 重新生成，否则第一次保存之后通过样式管理器新建或修改的样式永远不会写入文件。
+	if existing, ok := d.parts["word/styles.xml"]; ok && len(existing) > 0 && !d.stylesGenerated {
 		Debugf("检测到已有 styles.xml，跳过样式重建以保留模板默认样式")
 		return nil
 	}
@@ -3020,6 +3026,8 @@ func (d *Document) serializeStyles() error {
 		MCIgnorable: "w14",
 		Styles:      d.styleManager.GetAllStyles(),
 	}
+	// 样式管理器内部是map，按样式ID排序使重复保存得到相同的字节
+	sort.Slice(doc.Styles, func(i, j int) bool { return doc.Styles[i].StyleID < doc.Styles[j].StyleID })
 
 	// 序列化为XML
 	data, err := xml.MarshalIndent(doc, "", "  ")
@@ -3030,6 +3038,7 @@ func (d *Document) serializeStyles() error {
 
 	// 添加XML声明
 	d.parts["word/styles.xml"] = append([]byte(xml.Header), data...)
+	d.stylesGenerated = true
 
 	Debugf("样式序列化完成")
 	return nil
